@@ -18,6 +18,9 @@ CONFIGS = {
     # until with children that react to being closed
     'until_kids': dict(B, NRoots=1, MaxActs=3, MaxScopes=1, RootOps=3, TaskOps=2, Horizon=3,
                        Menu={'leave', 'instant', 'sleep', 'until_d', 'do', 'do_fin', 'do_volatile'}),
+    # until(<date condition>) left by the body's own exception / completion in the step the date fires
+    'until_time': dict(B, NRoots=1, MaxActs=2, MaxScopes=1, RootOps=4, TaskOps=1,
+                       Menu={'instant', 'sleep', 'leave', 'until_time', 'raise', 'do'}),
     # a cancellation racing with a forced close of the same task
     'cancel_close': dict(B, NRoots=1, MaxActs=3, MaxScopes=1, RootOps=5, TaskOps=2,
                          Menu={'leave', 'instant', 'open', 'do', 'cancel', 'raise'}),
